@@ -8,6 +8,7 @@ open Sdc Sdc.Multikey
   `set <o> <r>…`         r = E | N | o<k> | s<w>:<e>,… | l<k>,…          -> `ok <dump>`
   `add|rm|upd <o>`, `clear`, `addm|rmm|updm <o>…`                        -> `ok <dump>` | `err <class> <dump>`
   a leading `.` word (`. add 3`): answer without the dump
+  `addidx <d> <o>…`  add_index at run time, objects in the set's iteration order            -> like `add`
   `get <i> <k>` -> `none` | `o,…`     `has <i> <k>` -> `true|false`     `one <i> <k> <0|1>` -> `ok <o>|ok none|err <class>`
   dump = `O:<objs sorted> I<i>:<k>=<o,…>|… R:<o>=<i>.<k>,…/…` over the universe of keys / objects mentioned so far
 -/
@@ -116,6 +117,14 @@ def stepLine (s : DState) (line : String) : DState × String :=
   | "addm" :: os => match Io.parseNats os with | some os => doOp s (.addMany os) os | none => (s, "bad-op")
   | "rmm" :: os => match Io.parseNats os with | some os => doOp s (.removeMany os) os | none => (s, "bad-op")
   | "updm" :: os => match Io.parseNats os with | some os => doOp s (.updateMany os) os | none => (s, "bad-op")
+  | "addidx" :: d :: os =>
+    -- `add_index` at run time; os = iteration order of the object set as observed on the implementation
+    match parseDef d, Io.parseNats os with
+    | some d, some os =>
+      let r := xstep { defs := s.defs, w := s.w } (.addIndex d os)
+      let s' := { s with defs := r.1.defs, w := r.1.w }
+      (s', answer quiet s' r.2)
+    | _, _ => (s, "bad-op")
   | ["dump"] => (s, dump s)
   | ["get", i, k] =>
     match i.toNat?, k.toNat? with
